@@ -213,6 +213,56 @@ def run(res, tier, seed):
                     first = first or {"what": f"malformed line in the included file changes the including "
                                               f"file at line {key[1] + 1}", "files": inputs[2 * j]}
         hit["contained"] += ok
+    # ---- an ignored multi-line construct: `.macro … .endmacro` (unsupported, skipped as a whole).
+    # The construct must be named by a diagnostic on its first line, whether or not it is closed
+    # before the file ends, and the lines around it must parse as if it were not there.
+    minputs, mmeta = [], []
+    for _ in range(30 if tier == "quick" else 1500):
+        before = one_per_line(rng, rng.randrange(1, 6))
+        after = one_per_line(rng, rng.randrange(0, 5))
+        body = one_per_line(rng, rng.randrange(0, 4))
+        closed = rng.random() < 0.5
+        head = rng.choice([".macro foo", ".macro push_all", "  .macro m2 x y", ".MACRO big"])
+        close = [rng.choice([".endmacro", "  .endmacro", ".ENDMACRO"])] if closed else \
+            rng.choice([[], [".end_macro"], [".endm"], ["# .endmacro"]])
+        region = [head] + body + close
+        if not closed:
+            after = []
+        nl = "\r\n" if rng.random() < 0.1 else "\n"
+        fin = nl if rng.random() < 0.8 else ""
+        t1 = nl.join(before + region + after) + fin
+        t0 = nl.join(before + after) + fin
+        if rng.random() < 0.3:
+            bt = '.include "inc.s"\n    li a7, 10\n    ecall\n'
+            minputs += [[("base.s", bt), ("inc.s", t1)], [("base.s", bt), ("inc.s", t0)]]
+            mmeta.append(("1", before, region, after, closed))
+        else:
+            minputs += [[("m.s", t1)], [("m.s", t0)]]
+            mmeta.append(("0", before, region, after, closed))
+    mimpl, _, mbad = correspondence("parse", minputs)
+    hit["macro_regions"] = len(mmeta)
+    hit["macro_unterminated"] = sum(1 for m in mmeta if not m[4])
+    for j, (fidx, before, region, after, closed) in enumerate(mmeta):
+        a1, a0 = mimpl[2 * j], mimpl[2 * j + 1]
+        it1, it0 = items_by_line(a1, 2), items_by_line(a0, 2)
+        what = None
+        k = len(before)
+        if not any(d.startswith("PERR") for d in it1.get((fidx, k), [])):
+            what = (f"the {'closed' if closed else 'unterminated'} macro definition starting at line {k + 1} "
+                    f"({len(region)} lines) is skipped without any diagnostic on it")
+        for ln in range(len(before)):
+            if it1.get((fidx, ln), []) != it0.get((fidx, ln), []):
+                what = what or f"a macro definition changes how line {ln + 1} before it is parsed"
+        for q in range(len(after)):
+            if it1.get((fidx, k + len(region) + q), []) != it0.get((fidx, k + q), []):
+                what = what or (f"line {k + len(region) + q + 1} {after[q]!r} after a closed macro definition is "
+                                f"parsed differently: {it1.get((fidx, k + len(region) + q), [])} vs "
+                                f"{it0.get((fidx, k + q), [])}")
+        if what and first is None:
+            first = {"what": what, "files": minputs[2 * j],
+                     "replay_cmd": "echo '%s' | %s" % (pipe_req("parse", minputs[2 * j]), RVH_DEBUG)}
+    bad_corr = bad_corr or mbad
+    inputs = inputs + minputs
     res.cov["evaluations"] = len(inputs)
     res.cov["distinct_nontrivial"] = len(set(str(x) for x in inputs))
     res.cov["rule"] = ("one-statement-per-line files (base and included, LF/CRLF, with/without final newline) "
